@@ -9,6 +9,17 @@ from vlib.harness import CheckBase, Verdict
 SLOTS_INTERESTING = [0, 1, 2, 3, 254, 255, 256, 509, 510]
 
 
+def blank_surface(tag, tracks, spt):
+    """A surface that carries no recognisable catalogue at all (every sector self-describing)."""
+    img = bytearray()
+    for lba in range(tracks * spt):
+        t, s = divmod(lba, spt)
+        pat = ("<%s T%02d s%02d #%04d>" % (tag, t, s, lba)).encode()
+        img += (pat * (256 // len(pat) + 1))[:256]
+    img[256 + 5] = 0xFF        # "last entry" offset that is not a multiple of 8: certainly not a catalogue
+    return bytes(img)
+
+
 def marker_surface(tag, tracks, spt, total=None, with_file=True):
     """A surface with a valid (Acorn) catalogue and every other sector self-describing."""
     nsec = tracks * spt
@@ -32,8 +43,19 @@ def marker_surface(tag, tracks, spt, total=None, with_file=True):
 
 @st.composite
 def case_st(draw):
-    kind = draw(st.sampled_from(["one", "one", "inter", "inter", "mmb", "mmb", "one-trunc", "inter-trunc"]))
+    kind = draw(st.sampled_from(["one", "one", "inter", "inter", "mmb", "mmb", "one-trunc", "inter-trunc",
+                                 "inter-blank1", "mmb-blank"]))
     c = {"kind": kind, "pick": draw(st.integers(0, 10 ** 6))}
+    if kind == "inter-blank1":
+        # side 1 has no catalogue; only the 80-track single-density geometry is then unambiguous
+        c.update({"tracks": 80, "spt": 10, "ext": "dsd"})
+        return c
+    if kind == "mmb-blank":
+        c["slots"] = [[draw(st.sampled_from([0, 1, 2, 255, 510])), 0x0F]]
+        c["default_status"] = 0xFF
+        c["policy"] = draw(st.sampled_from(["first", "physical"]))
+        c["blank"] = True
+        return c
     if kind.startswith(("one", "inter")):
         dd = draw(st.booleans())
         c["tracks"] = draw(st.sampled_from([35, 40, 80]))
@@ -60,7 +82,8 @@ class C04(CheckBase):
     rule = ("generated marker discs (valid catalogue on every surface, every other sector self-describing "
             "'<side/slot Ttt sss #lba>') in .ssd/.sdd (1 side), .dsd/.ddd (interleaved, 2 sides) and .mmb (1-6 "
             "populated slots from {0,1,2,3,254,255,256,509,510,random}, status bytes 00/0F/F0/FF) containers, "
-            "35/40/80 tracks x 10/18 sectors, optionally truncated; for each attached drive dump-sector on tracks "
+            "35/40/80 tracks x 10/18 sectors, optionally truncated, incl. surfaces that carry no catalogue at all (blank "
+            "side 1 of an 80-track .dsd, MMB slot marked present but holding junk); for each attached drive dump-sector on tracks "
             "{0,1,mid,last} x all sectors, out-of-range track/sector, reads past a truncation point, type --binary "
             "of a file, cat on unformatted MMB slots.  Oracle: the documented offset formula evaluated on the file "
             "the generator wrote.  Non-trivial: a case that reads side 1, or a track >= 1 of an interleaved file, "
@@ -89,7 +112,7 @@ class C04(CheckBase):
         with runtool.Sandbox("c04") as sb:
             if case["kind"] == "twoside-nonint":
                 self._two_sided_nonint(v, dfs, sb, case)
-            elif case["kind"] == "mmb":
+            elif case["kind"] in ("mmb", "mmb-blank"):
                 self._mmb(v, dfs, sb, case)
             else:
                 self._sd(v, dfs, sb, case)
@@ -135,8 +158,9 @@ class C04(CheckBase):
         tracks, spt = case["tracks"], case["spt"]
         inter = case["kind"].startswith("inter")
         sides = [marker_surface("side0", tracks, spt)]
+        blank1 = case["kind"] == "inter-blank1"
         if inter:
-            sides.append(marker_surface("side1", tracks, spt))
+            sides.append(blank_surface("side1", tracks, spt) if blank1 else marker_surface("side1", tracks, spt))
             data = containers.interleaved(sides[0], sides[1], spt)
         else:
             data = sides[0]
@@ -163,6 +187,9 @@ class C04(CheckBase):
                 return offset(lba) + 256 <= len(data)
             self._read_checks(v, dfs, sb, img, [], drive, tracks, spt, side_bytes, readable,
                               "%s side %d" % (case["ext"], si))
+            if blank1 and si == 1:
+                v.classes.append("surface-without-catalogue")
+                continue
             r = runtool.run([dfs, "--file", img, "type", "--binary", ":%d.$.F" % drive], sb.path)
             v.evaluations += 1
             want = data[offset(2):offset(2) + 256] + data[offset(3):offset(3) + 256] + data[offset(4):offset(4) + 256]
@@ -194,7 +221,10 @@ class C04(CheckBase):
         imgs = {}
         for slot, status in case["slots"]:
             if status in (0x00, 0x0F):
-                imgs[slot] = marker_surface("slot%03d" % slot, 80, 10, total=800)
+                imgs[slot] = (blank_surface("slot%03d" % slot, 80, 10) if case.get("blank")
+                              else marker_surface("slot%03d" % slot, 80, 10, total=800))
+                if case.get("blank"):
+                    v.classes.append("surface-without-catalogue")
                 slots[slot] = (status, imgs[slot])
             else:
                 slots[slot] = (status, None)
